@@ -1,9 +1,12 @@
 (* C01 — Ensembles reproduce exact averages of solvable systems.
    PARTIAL, and labelled so: what is proved is detailed balance of the model kernels (all parameters); that detailed balance plus
-   irreducibility gives convergence of time averages (ergodic theorem), and the closed forms of the analytic averages, are cited
+   irreducibility gives convergence of time averages (ergodic theorem) is cited; the closed forms of the analytic averages are proved below (two of them up to an
+   explicit boundary term whose limit is cited)
    mathematics; the real code is sampled statistically by the harness. *)
 From QV Require Import Model.Criteria Proofs.CriteriaProofs Proofs.BalanceProofs Proofs.MarkovProofs.
+From QV Require Import Proofs.LangevinProofs Proofs.AveragesProofs Proofs.PoissonProofs.
 From Coq Require Import List.
+From Coquelicot Require Import Coquelicot.
 From Coq Require Import Lra.
 Open Scope R_scope.
 
@@ -51,7 +54,7 @@ Proof. exact @mh_reversible. Qed.
 Print Assumptions C01_mh_kernel_reversible.
 (* the scheduler's weighted choice among the moves of the table *)
 Theorem C01_move_choice_invariant : forall (A : Type) (S : list A) (pi : A -> R) (wk : list (R * (A -> A -> R))),
-  Forall (fun p => stationary S pi (snd p)) wk -> fold_right (fun p s => fst p + s) 0 wk = 1 -> stationary S pi (mixl wk).
+  List.Forall (fun p => stationary S pi (snd p)) wk -> fold_right (fun p s => fst p + s) 0 wk = 1 -> stationary S pi (mixl wk).
 Proof. exact @stationary_mixl. Qed.
 Print Assumptions C01_move_choice_invariant.
 (* one move after another: the cycles of a step, the parts of a composite move (not reversible in general, still invariant) *)
@@ -66,7 +69,7 @@ Proof. exact @stationary_ident. Qed.
 Print Assumptions C01_failed_trial_invariant.
 (* arbitrarily long histories: a chain started in the target stays in it after any list of invariant kernels *)
 Theorem C01_history_invariant : forall (A : Type) (S : list A) (pi : A -> R) (Ks : list (A -> A -> R)) (mu : A -> R),
-  Forall (stationary S pi) Ks -> (forall y, In y S -> mu y = pi y) -> forall y, In y S -> fold_left (push S) Ks mu y = pi y.
+  List.Forall (stationary S pi) Ks -> (forall y, In y S -> mu y = pi y) -> forall y, In y S -> fold_left (push S) Ks mu y = pi y.
 Proof. exact @history_invariant. Qed.
 Print Assumptions C01_history_invariant.
 Example C01_chain_nonvacuous :
@@ -75,5 +78,29 @@ Example C01_chain_nonvacuous :
   let K := fun x y : bool => if Bool.eqb x y then (if x then 0 else 1 / 2) else (if x then 1 else 1 / 2) in
   stochastic S K /\ reversible S pi K /\ stationary S pi K.
 Proof. exact two_state_reversible. Qed.
+(* ---- the analytic averages the long runs are compared with ---- *)
+(* rigid dipole in a field: u = cos(theta) uniform under the proposal (C10), weight exp(x u): <u> = coth x - 1/x (Langevin) *)
+Theorem C01_langevin_mean : forall x, x <> 0 -> forall Z M : R, is_RInt (w x) (-1) 1 Z -> is_RInt (uw x) (-1) 1 M -> M / Z = coth x - / x.
+Proof. exact langevin_mean. Qed.
+Print Assumptions C01_langevin_mean.
+(* ideal gas at constant pressure, weight V^N exp(-a V) with a = P/kT: for EVERY cut-off L, int V^(N+1) e^(-aV) = (N+1)/a int V^N e^(-aV) - L^(N+1) e^(-aL)/a,
+   i.e. <V> = (N+1) kT / P up to a boundary term that vanishes as L -> infinity (that limit is cited) *)
+Theorem C01_ideal_gas_volume_identity : forall a, a <> 0 -> forall (N : nat) (L Z M : R), is_RInt (gw a N) 0 L Z -> is_RInt (gvw a N) 0 L M ->
+  M = INR (S N) / a * Z - L ^ (S N) * exp (- a * L) / a.
+Proof. exact ideal_gas_volume_identity. Qed.
+Print Assumptions C01_ideal_gas_volume_identity.
+(* one harmonic coordinate, weight exp(-b q^2) with b = k/(2kT): for every cut-off L, int q^2 e^(-b q^2) = 1/(2b) int e^(-b q^2) - L e^(-b L^2)/b,
+   i.e. <k q^2 / 2> = kT/2 per coordinate (3N/2 kT in all) up to the boundary term *)
+Theorem C01_equipartition_identity : forall b, b <> 0 -> forall L Z M : R, is_RInt (hw b) (- L) L Z -> is_RInt (hqw b) (- L) L M ->
+  M = / (2 * b) * Z - L * exp (- b * (L * L)) / b.
+Proof. exact equipartition_identity. Qed.
+Print Assumptions C01_equipartition_identity.
+(* ideal gas at constant chemical potential: the stationary weights a^N/N! are the Poisson law: normalised, mean a, variance a (infinite series, no cut-off) *)
+Theorem C01_poisson_mean : forall a, is_series (fun n => exp (- a) * pw a n) 1 /\ is_series (fun n => INR n * (exp (- a) * pw a n)) a.
+Proof. exact poisson_mean. Qed.
+Print Assumptions C01_poisson_mean.
+Theorem C01_poisson_variance : forall a (m2 : R), is_series (fun n => INR n * INR n * (exp (- a) * pw a n)) m2 -> m2 - a * a = a.
+Proof. exact poisson_variance. Qed.
+Print Assumptions C01_poisson_variance.
 Example C01_nonvacuous : 0 < 2 /\ 2 ^ 1 / INR (fact 1) * Rmin 1 (2 / (INR 1 + 1)) = 2.
 Proof. split; [lra|]. simpl. rewrite Rmin_left by lra. lra. Qed.
